@@ -224,8 +224,15 @@ def history_cases(draw):
         s['flux'] = [v * 1.5 if isinstance(v, float) else v for v in s['flux']]
         c['sources'].append(s)
     c['mode'] = mode
+    if c['format'] != 'v1' and draw(st.booleans()):
+        c['memmap'] = True      # the default of Fitter / fit() for cube packages
     # some sources carry integer-typed photometry
     c['sources'] = [gen.integerize(s) if draw(st.integers(0, 4)) == 0 else s for s in c['sources']]
+    # sources set up by hand for the object interface need not have a name
+    if draw(st.integers(0, 2)) == 0:
+        for s in c['sources']:
+            if draw(st.booleans()):
+                s['name'] = ''
     return c
 
 
@@ -298,11 +305,47 @@ class HistoryMachine(TracedMachine()):
             fail('the source attached to the result differs from the one given', 'c11:source_modified')
         self.history.append(k)
 
+    @precondition(lambda self: self.ready and not self._dead)
+    @rule(variant=st.sampled_from(['reversed_filters', 'other_av_range', 'other_distances']), k=st.integers(0, 5))
+    def other_fitter(self, variant, k):
+        """a SECOND fitter on the same package (other filter order / A_V range / distance range) is created, used and kept
+        alive next to the first one: the first must go on returning what a fresh fitter returns"""
+        self.log('other_fitter', variant=variant, k=k)
+        self.guard(self._other_fitter, variant, k)
+
+    def _other_fitter(self, variant, k):
+        import copy
+        case = copy.deepcopy(self.case)
+        dr = self.dr
+        av = list(case['av_ranges'][0])
+        src = copy.deepcopy(case['sources'][k % len(case['sources'])])
+        if variant == 'reversed_filters':
+            case['filters'] = case['filters'][::-1]
+            case['theta'] = case['theta'][::-1]
+            if case.get('by_name'):
+                case['by_name'] = [gen.named_filter(self.case, len(self.case['filters']) - 1 - j) for j in range(len(case['filters']))]
+            for key in ('flags', 'flux', 'err'):
+                src[key] = src[key][::-1]
+        elif variant == 'other_av_range':
+            av = [av[0] - 1., av[1] + 2.5]
+        elif dr is not None:
+            dr = dr * 1.37
+        with must_succeed('a second Fitter() on the same package'), quiet():
+            other = gen.make_fitter(self.dir, case, av, distance_range=dr)
+            other.fit(gen.source_object(src))
+        self.others = getattr(self, 'others', []) + [other]
+        self.n_others = getattr(self, 'n_others', 0) + 1
+
     def finish(self):
         h = self.history
         again = any(h[i] == h[j] and any(h[m] != h[i] for m in range(i + 1, j))
                     for i in range(len(h)) for j in range(i + 2, len(h)))
-        return {'history_len=%d' % min(len(h), 6)}, len(h) >= 3 and again
+        labels = {'history_len=%d' % min(len(h), 6)}
+        if getattr(self, 'n_others', 0):
+            labels.add('second_fitter_alive')
+        if self.case.get('memmap'):
+            labels.add('memmap')
+        return labels, len(h) >= 3 and again
 
 
 ENTRIES = {'permute': run_permute, 'rescale': run_rescale}
@@ -312,4 +355,4 @@ MACHINES = {'history': HistoryMachine}
 def plan(ctx):
     ctx.run_given('permute', permute_cases(), ctx.scale(25, 500))
     ctx.run_given('rescale', rescale_cases(), ctx.scale(30, 600))
-    ctx.run_machine('history', ctx.scale(15, 300), 6, shrink=not ctx.quick)
+    ctx.run_machine('history', ctx.scale(15, 300), 8, shrink=not ctx.quick)
